@@ -1,0 +1,151 @@
+//! Expansion recorder (verification hook, off by default).
+//! Compiled only under `--cfg audunhalland_entrait_verif`; inert unless `ENTRAIT_VERIF_DUMP` is set.
+use proc_macro::{Delimiter, Spacing, TokenStream, TokenTree};
+use std::cell::Cell;
+use std::fmt::Write as _;
+use std::io::Write as _;
+
+thread_local! {
+    static INSIDE: Cell<bool> = const { Cell::new(false) };
+    static VARIANT: Cell<&'static str> = const { Cell::new("?") };
+    static SEQ: Cell<u64> = const { Cell::new(0) };
+}
+
+pub fn set_variant(v: &'static str) {
+    VARIANT.with(|c| c.set(v));
+}
+
+pub fn should_record() -> bool {
+    !INSIDE.with(|c| c.get()) && std::env::var_os("ENTRAIT_VERIF_DUMP").is_some()
+}
+
+fn esc(s: &str, out: &mut String) {
+    out.push('"');
+    for ch in s.chars() {
+        match ch {
+            '"' => out.push_str("\\\""),
+            '\\' => out.push_str("\\\\"),
+            '\n' => out.push_str("\\n"),
+            '\r' => out.push_str("\\r"),
+            '\t' => out.push_str("\\t"),
+            c if (c as u32) < 0x20 => {
+                let _ = write!(out, "\\u{:04x}", c as u32);
+            }
+            c => out.push(c),
+        }
+    }
+    out.push('"');
+}
+
+fn ser(ts: &TokenStream, out: &mut String) {
+    out.push('[');
+    let mut first = true;
+    for tt in ts.clone() {
+        if !first {
+            out.push(',');
+        }
+        first = false;
+        match tt {
+            TokenTree::Group(g) => {
+                let d = match g.delimiter() {
+                    Delimiter::Parenthesis => "(",
+                    Delimiter::Brace => "{",
+                    Delimiter::Bracket => "[",
+                    Delimiter::None => "",
+                };
+                out.push_str("{\"g\":");
+                esc(d, out);
+                out.push_str(",\"s\":");
+                ser(&g.stream(), out);
+                out.push('}');
+            }
+            TokenTree::Ident(i) => {
+                out.push_str("{\"i\":");
+                esc(&i.to_string(), out);
+                out.push('}');
+            }
+            TokenTree::Punct(p) => {
+                out.push_str("{\"p\":");
+                esc(&p.as_char().to_string(), out);
+                if p.spacing() == Spacing::Joint {
+                    out.push_str(",\"j\":1");
+                }
+                out.push('}');
+            }
+            TokenTree::Literal(l) => {
+                out.push_str("{\"l\":");
+                esc(&l.to_string(), out);
+                out.push('}');
+            }
+        }
+    }
+    out.push(']');
+}
+
+fn emit(line: &str) {
+    let Some(dir) = std::env::var_os("ENTRAIT_VERIF_DUMP") else {
+        return;
+    };
+    let mut path = std::path::PathBuf::from(dir);
+    let _ = std::fs::create_dir_all(&path);
+    path.push(format!("dump-{}.jsonl", std::process::id()));
+    if let Ok(mut f) = std::fs::OpenOptions::new()
+        .create(true)
+        .append(true)
+        .open(&path)
+    {
+        let _ = f.write_all(line.as_bytes());
+    }
+}
+
+pub fn record(
+    attr: TokenStream,
+    input: TokenStream,
+    f: impl FnOnce(TokenStream, TokenStream) -> TokenStream,
+) -> TokenStream {
+    let seq = SEQ.with(|c| {
+        let v = c.get();
+        c.set(v + 1);
+        v
+    });
+    let pid = std::process::id();
+    let span = proc_macro::Span::call_site();
+    let mut line = String::new();
+    let _ = write!(line, "{{\"ev\":\"begin\",\"pid\":{pid},\"seq\":{seq},\"variant\":");
+    esc(VARIANT.with(|c| c.get()), &mut line);
+    line.push_str(",\"file\":");
+    esc(&span.file(), &mut line);
+    let _ = write!(line, ",\"line\":{},\"attr\":", span.line());
+    ser(&attr, &mut line);
+    line.push_str(",\"input\":");
+    ser(&input, &mut line);
+    line.push_str("}\n");
+    emit(&line);
+
+    INSIDE.with(|c| c.set(true));
+    let res = std::panic::catch_unwind(std::panic::AssertUnwindSafe(move || f(attr, input)));
+    INSIDE.with(|c| c.set(false));
+
+    let mut line = String::new();
+    match res {
+        Ok(output) => {
+            let _ = write!(line, "{{\"ev\":\"end\",\"pid\":{pid},\"seq\":{seq},\"output\":");
+            ser(&output, &mut line);
+            line.push_str("}\n");
+            emit(&line);
+            output
+        }
+        Err(payload) => {
+            let msg = payload
+                .downcast_ref::<&str>()
+                .map(|s| s.to_string())
+                .or_else(|| payload.downcast_ref::<String>().cloned())
+                .unwrap_or_default();
+            let _ = write!(line, "{{\"ev\":\"panic\",\"pid\":{pid},\"seq\":{seq},\"msg\":");
+            esc(&msg, &mut line);
+            line.push_str("}\n");
+            emit(&line);
+            std::panic::resume_unwind(payload)
+        }
+    }
+}
